@@ -2,7 +2,7 @@
 from hypothesis import given, seed
 
 from vlib import gen_cat, gen_pair, inventory, oracle_unify as ou, runner
-from vlib.model_cat import canon, feats, from_json, jsonable, model_of, read, to_cat
+from vlib.model_cat import ORIGINS, canon, feats, from_json, jsonable, model_of, read, to_cat, to_cat_via
 from vlib.tape import Tape, tapes
 
 PROPERTY = 'C06'
@@ -66,7 +66,7 @@ def check_case(case):
     pxs, pys = case['px'], case['py']
     mpx, mpy = read(pxs), read(pys)
     mx, my = from_json(case['x']), from_json(case['y'])
-    x, y = to_cat(mx), to_cat(my)
+    x, y = to_cat_via(mx, case.get('origin_x', 'built')), to_cat_via(my, case.get('origin_y', 'built'))
     v, occ, stage = ou.verdict(mpx, mpy, mx, my)
     tag = f'patterns ({pxs} , {pys}) on ({canon(mx)} , {canon(my)})'
     u = Unification(pxs, pys)
@@ -153,7 +153,8 @@ def build_case(data, pats):
             my = gen_cat.t_refeature(t, my, system, 60)
             kinds = kinds + ['refeature']
     return {'px': pxs, 'py': pys, 'x': jsonable(mx), 'y': jsonable(my), 'mode': mode,
-            'system': system, 'perturbations': kinds}
+            'system': system, 'perturbations': kinds,
+            'origin_x': ORIGINS[t.tail(0) % 4], 'origin_y': ORIGINS[t.tail(1) % 4]}
 
 
 def fuzz_one(data):
